@@ -27,6 +27,12 @@ GRAPHS = {
     "two-diamonds": ([[1, 2], [3], [3], [4, 5], [6], [6], []], {1: ["x"], 4: ["x"], 5: ["y"]}),
     "nested-loops": ([[1], [2, 5], [3, 4], [2], [1], []], {0: ["i", "j"], 3: ["j"], 4: ["i"]}),
     "unassigned-on-one-path": ([[1, 2], [3], [3], []], {1: ["x"]}),
+    # the join block assigns the variable itself (after the phi it still needs)
+    "join-writes-too": ([[1, 2], [3], [3], []], {1: ["x"], 3: ["x"]}),
+    # a diamond inside a loop whose branches write {a, b} and {b}: the join gets its phi for b first and the one for a
+    # later - it has to be looked at again then, or the loop header never learns about a
+    "two-writers-in-a-loop": ([[1], [2, 6], [3, 4], [5], [5], [1], []], {3: ["a", "b"], 4: ["b"]}),
+    "two-writers-in-a-loop (other names)": ([[1], [2, 6], [3, 4], [5], [5], [1], []], {3: ["b", "a"], 4: ["a"]}),
 }
 
 
@@ -82,8 +88,9 @@ def expected_phis(succ, writes):
 
 
 class Model:
-    def __init__(self, succ, writes, phis=None):
+    def __init__(self, succ, writes, phis=None, reverse=False):
         self.succ, self.writes = succ, writes
+        self.reverse = reverse  # the order in which a block's written variables come out of their (hash) set
         self.n = len(succ)
         self.preds, self.idom, self.children, self.df = analyse(succ)
         self.phis = {b: list(sorted(phis[b])) if phis else [] for b in range(self.n)}
@@ -101,7 +108,7 @@ class Model:
 
     def block(self, i):
         def written():
-            return MSet(sorted(set(self.writes.get(i, [])) | set(self.phis[i])))
+            return MSet(sorted(set(self.writes.get(i, [])) | set(self.phis[i]), reverse=self.reverse))
 
         def insert_phi(var, _env):
             self.phis[i].insert(0, var)
@@ -173,8 +180,8 @@ def eval_phi_insertion():
     if fn is None:
         raise Unsupported("insert_phi_statements not found")
     n = 0
-    for name, (succ, writes) in GRAPHS.items():
-        m = Model(succ, writes)
+    for name, (succ, writes) in [(k_ + o_, v_) for k_, v_ in GRAPHS.items() for o_ in ("", " [variables in reverse order]")]:
+        m = Model(succ, writes, reverse=name.endswith("order]"))
         w.call_fn(fn, [m.block_list(), m.tree(), m.env()])
         n += 1
         want = expected_phis(succ, writes)
@@ -265,6 +272,28 @@ def eval_block_methods():
         if not (isinstance(res, tuple) and len(res) > 1 and res[1] == "Err") or log != [("renamed", "s"), ("renamed", "t")]:
             bad = bad or "an error of a statement is not returned at once: result %s after %s" % (res[1] if isinstance(res, tuple) and len(res) > 1 else res, log)
         out["insert_ssa_variables"] = bad
+    f = find_fn(TRAITS, "variables_written", "SSABasicBlock")
+    if f is not None:
+        bad = None
+        for lst in LISTS:
+            got = w.call_fn(f, [block([stmt(k, t, []) for k, t in lst], [])])
+            items = sorted(got.items) if isinstance(got, (MSet, Sink)) else None
+            if items != sorted({t for _k, t in lst}):
+                bad = bad or "statements %s: the variables written are %s (a phi statement writes its variable too: the block defines it from there on)" % (lst, items if items is not None else got)
+        out["variables_written"] = bad
+    f = find_fn(TRAITS, "insert_phi_statement")
+    if f is not None:
+        bad = None
+        log = []
+        w.stubs = {"new_phi_statement": lambda a: ("K", "new-phi", tuple(a))}
+        try:
+            w.call_fn(f, [block([stmt("other", "s", log)], log), "v", env])
+        finally:
+            w.stubs = {}
+        okp = len(log) == 1 and log[0][0] == "prepended" and isinstance(log[0][1], tuple) and log[0][1][0] == "K" and log[0][1][2][:1] == ("v",)
+        if not okp:
+            bad = "the block is given %s, expected one phi statement for the variable put in front" % (log,)
+        out["insert_phi_statement"] = bad
     f = find_fn(TRAITS, "has_phi_statement")
     if f is not None:
         bad = None
@@ -305,10 +334,11 @@ def rule(ctx, R, part):
             ctx.bad(R, "SSABasicBlock/provided-methods/no-panic", res, TRAITS)
             return True
         texts = {"update_phi_statements": "ensure_phi_argument runs on every phi statement of the block (they precede all others) and on nothing else", "insert_ssa_variables": "every statement is renamed, in order; the first error is returned at once",
-                 "has_phi_statement": "true exactly when a phi statement for that variable is in the block"}
+                 "has_phi_statement": "true exactly when a phi statement for that variable is in the block", "variables_written": "the variables of every statement, phi statements included",
+                 "insert_phi_statement": "one new phi statement for the variable is put in front of the block"}
         for k_, v_ in res.items():
             ctx.check(R, "SSABasicBlock::%s/evaluated" % k_, v_ is None, v_ or texts[k_], TRAITS)
-        return len(res) == 3
+        return len(res) == 5
     fname = "insert_phi_statements" if part == "phis" else "insert_ssa_variables_impl"
     fn = find_fn(MOD, fname)
     st0 = site(MOD, fn) if fn else None
